@@ -226,7 +226,7 @@ def plan_jobs(ctx: core.Ctx, families: typing.Dict[str, typing.List[str]]) -> ty
         for fam in families[label]:
             # the sanitizer builds run the whole grid too (argument 4 = 1 would select the harness' thinned grid)
             jobs.append({"build": label, "family": fam, "args": ["grid", fam, seed, 0], "cost": FULL.get(fam, 1) * (4 if b["san"] else 1)})
-        nrand = (40000 if b["san"] else 240000) if ctx.quick else (1000000 if b["san"] else 6000000)
+        nrand = (480000 if b["san"] else 2400000) if ctx.quick else (4800000 if b["san"] else 24000000)
         jobs.append({"build": label, "family": "rand", "args": ["rand", seed, nrand], "cost": nrand * 4})
         # ordered float32 -> half sweeps
         if label in ("c-any", "cpp") and not ctx.quick:
@@ -252,7 +252,7 @@ def run(ctx: core.Ctx):
         "non-trivial = an offset or the length is not a multiple of 8, or the accessed range crosses the buffer end / the call must "
         "report BUFFER_TOO_SMALL (float->half: the value is not representable in binary16; half codes: zero/subnormal/inf/NaN); "
         "distinct by construction: every grid tuple is visited exactly once per build and counted inside the harness "
-        "(random extras are counted as evaluations only)"
+        "(random extras and the +-8 ulp float->half neighbourhoods, which the ordered sweeps may revisit, are counted as evaluations only)"
     )
     ctx.assumptions = [
         "the reference is the bit-by-bit code in harness/c14_c.c / c14_py.py; IEEE 754 binary32/binary64 host, little-endian (asserted by the generated code itself)",
@@ -322,7 +322,9 @@ def run(ctx: core.Ctx):
             is_rand = fam.startswith("rand.")
             name = f"{label}.{fam}" if label != "py" else f"py.{fam}"
             ctx.bulk(n, (), {name: n})
-            if not is_rand:
+            # distinct non-trivial: grid tuples and ordered-sweep values are visited once each; the +-8 ulp neighbourhoods of
+            # the f16pack grid can coincide with sweep values and the random extras can repeat: evaluations only
+            if not is_rand and not (fam == "f16pack" and job["args"][0] == "grid"):
                 bigset.extra += nt
             pb = per_build.setdefault(label, {}).setdefault(fam, [0, 0])
             pb[0] += n
